@@ -19,6 +19,8 @@ import (
 	"net/http"
 	"os"
 	"path/filepath"
+	"strings"
+	"syscall"
 )
 
 import (
@@ -88,6 +90,10 @@ func newStaticFile(root string, filename string, encodingList []string, m *Modul
 
 	s.File, err = http.Dir(root).Open(filename)
 	if err != nil {
+		// a name that can not exist (NUL byte, longer than NAME_MAX) is a missing file
+		if strings.IndexByte(filename, 0) >= 0 || errors.Is(err, syscall.ENAMETOOLONG) {
+			return nil, os.ErrNotExist
+		}
 		return nil, err
 	}
 
